@@ -995,7 +995,7 @@ def impacts_accept(rep, ex: Explorer):
             sets = [ev for ev, Q in iter_events(p.events) if ev.kind == "attr.set" and ev.attr == "_impacts"]
             okv = len(sets) == 1 and view(p.state, sets[0].value) == ("list", (("each", sets[0].value and view(p.state, sets[0].value)[1][0][1], IMP, PTRUE, view(p.state, sets[0].value)[1][0][4]),)) if sets and isinstance(view(p.state, sets[0].value), tuple) and view(p.state, sets[0].value)[1] else False
             rep.check(bool(sets) and okv, "IMPACTS.accept", site, "assignment", "the accepted vector becomes the impact vector", extracted=f"{len(sets)} assignment(s)", required="_impacts = the given values", function=site)
-    rep.floor("load_impacts paths", n, 4)
+    rep.floor("load_impacts paths", n, 2)
 
 
 def _always_raises(body):
